@@ -442,6 +442,58 @@ def rule_F(run: Run, prog: Program) -> int:
     return n
 
 
+def rule_F7(run: Run, prog: Program) -> int:
+    """a local that carries a bounded operand (the parameter narrowed to a polytope class B, or None when it is not one) keeps carrying it: a
+    rebinding `x = <re-indexed x> if isinstance(x, C) else None` with C a STRICT subclass of B drops the operand for the objects of B that are
+    not of C (the single Segment next to SegmentCollection), and the filter `x.contains(result)` guarded by `x is not None` is silently skipped"""
+    run.rule("E10.F7", "a local that carries the bounded operand (`seg = other if isinstance(other, B) else None`) is never rebound to None under a test "
+                       "`isinstance(seg, C)` with C a strict subclass of B: the objects of B outside C would lose their membership filter")
+    n = 0
+    for fn in intersect_methods(prog):
+        ps = fn.params()
+        if len(ps) < 2:
+            continue
+        other = ps[1].arg
+        carriers: dict[str, ClassInfo] = {}
+
+        def narrowing(e: ast.AST, subject: str):
+            """(class, value when true, value when false) of `A if isinstance(subject, K) else B`"""
+            if isinstance(e, ast.Call) and getattr(e.func, "id", "") == "cast" and len(e.args) == 2:
+                e = e.args[1]
+            if isinstance(e, ast.IfExp) and isinstance(e.test, ast.Call) and getattr(e.test.func, "id", "") == "isinstance" and len(e.test.args) == 2 \
+                    and isinstance(e.test.args[0], ast.Name) and e.test.args[0].id == subject and isinstance(e.test.args[1], ast.Name):
+                k = prog.find_cls(e.test.args[1].id)
+                return k, e.body, e.orelse
+            return None
+
+        def is_none(x: ast.AST) -> bool:
+            return isinstance(x, ast.Constant) and x.value is None
+
+        for st, _ctx in walk_ctx(fn.node.body):
+            if not (isinstance(st, ast.Assign) and len(st.targets) == 1 and isinstance(st.targets[0], ast.Name)):
+                continue
+            name = st.targets[0].id
+            got = narrowing(st.value, other)
+            if got is not None and got[0] is not None and is_none(got[2]) and isinstance(got[1], ast.Name) and got[1].id == other and _has_bounded_contains(prog, got[0]):
+                carriers[name] = got[0]
+                continue
+            if name in carriers:
+                got = narrowing(st.value, name)
+                if got is None or got[0] is None:
+                    continue
+                n += 1
+                k, _a, b = got
+                loc = f"{fn.module.rel}:{st.lineno}"
+                base = carriers[name]
+                if is_none(b) and k is not base and prog.is_subclass(k, base):
+                    run.add("E10.F7", fn.short, f"`{name}` rebound under isinstance({name}, {k.name})", VIOLATION,
+                            f"`{norm_stmt(st)[:90]}`: `{name}` carries the operand narrowed to {base.name}; for a {base.name} that is not a {k.name} (a single object) it becomes None "
+                            f"here and the filter `{name}.contains(...)` behind `{name} is not None` is skipped - points outside the operand are returned", loc)
+                else:
+                    run.add("E10.F7", fn.short, f"`{name}` rebound under isinstance({name}, {k.name})", PROVEN, "the operand is kept for every object it was narrowed to", loc)
+    return n
+
+
 def _ctx_compatible(a: Ctx, b: Ctx) -> bool:
     """assignment context a can flow to use context b: no contradictory arm of the same If."""
     for ca in a:
